@@ -803,7 +803,7 @@ def expand(node: ir.Node, op, state: OptimizerState) -> ReturnValue:
     return None
 
 
-@register("ConcatFromSequence")
+@register("ConcatFromSequence", version=(13, None))
 def concat_from_sequence(node: ir.Node, op, state: OptimizerState) -> ReturnValue:
     input = node.inputs[0]
     inputs = state.get_sym_value(input)
@@ -838,8 +838,31 @@ def concat_from_sequence(node: ir.Node, op, state: OptimizerState) -> ReturnValu
     return None
 
 
-@register("SplitToSequence")
-def split_to_sequence(node: ir.Node, op, state: OptimizerState) -> ReturnValue:
+@register("ConcatFromSequence", version=(None, 12))
+def concat_from_sequence_before_opset13(
+    node: ir.Node, op, state: OptimizerState
+) -> ReturnValue:
+    # Unsqueeze takes its axes as an attribute before opset 13: only the form that does not
+    # need an Unsqueeze is rewritten.
+    if _get_int_attribute(node, "new_axis", 0) != 0:
+        return None
+    return concat_from_sequence(node, op, state)
+
+
+@register("SplitToSequence", version=(13, 17))
+def split_to_sequence_before_opset18(
+    node: ir.Node, op, state: OptimizerState
+) -> ReturnValue:
+    # The `num_outputs` attribute of Split exists only since opset 18; before that a Split
+    # without the `split` input divides the axis equally among its outputs.
+    # (Before opset 13 Split and Squeeze take `split` / `axes` as attributes: not rewritten.)
+    return split_to_sequence(node, op, state, num_outputs_attribute=False)
+
+
+@register("SplitToSequence", version=(18, None))
+def split_to_sequence(
+    node: ir.Node, op, state: OptimizerState, num_outputs_attribute: bool = True
+) -> ReturnValue:
     """Rewriting pattern.
 
     From
@@ -938,10 +961,12 @@ def split_to_sequence(node: ir.Node, op, state: OptimizerState) -> ReturnValue:
                 axis=axis,
                 _outputs=split_outputs,
             )
-        else:
+        elif num_outputs_attribute:
             split_values = op.Split(
                 input, axis=axis, num_outputs=num_outputs, _outputs=split_outputs
             )
+        else:
+            split_values = op.Split(input, axis=axis, _outputs=split_outputs)
     else:
         return None
 
